@@ -1,8 +1,8 @@
 From Coq Require Import Extraction ExtrOcamlBasic NArith.
-From DV Require Import Base.Outcome Base.Bytes Base.Names C03.Gen C03.Model C03.Spec C03.ModelWire C03.ModelText C03.ModelSlice Base.PName C03.ProofsParsed.
+From DV Require Import Base.Outcome Base.Bytes Base.Names C03.Gen C03.Model C03.Spec C03.ModelWire C03.ModelText C03.ModelSlice Base.PName C03.ProofsParsed C03.ProofsText.
 Extraction Language OCaml.
 Extraction "../build/ml/C03/model.ml" run_log b_finish b_into_name b_append_origin hits_relname_255
   check_abs check_rel chain_new label_from_slice
   name_from_chars rel_from_chars uncertain_from_chars display_name
   is_label_start n_split n_truncate n_range n_range_from n_parent n_into_relative n_into_absolute
-  abs_strip_suffix rel_strip_suffix parse_ref mlen parsed_to_name uncertain_check chain_new_uncertain.
+  abs_strip_suffix rel_strip_suffix parse_ref mlen parsed_to_name uncertain_check chain_new_uncertain owned_label_from_chars display_rel.
